@@ -106,6 +106,19 @@ func (t *canonTable) members(name string, r *rand.Rand, n int) []rune {
 	return out
 }
 
+// upperOneHexLetter puts the first hex letter at or after pos (cyclically) in upper case.
+func upperOneHexLetter(s string, pos int) string {
+	b := []byte(s)
+	for k := 0; k < len(b); k++ {
+		i := (pos + k) % len(b)
+		if b[i] >= 'a' && b[i] <= 'f' {
+			b[i] -= 'a' - 'A'
+			return string(b)
+		}
+	}
+	return s
+}
+
 func flipHexBit(s string, pos int) string {
 	b := []byte(s)
 	i := pos % len(b)
@@ -236,9 +249,23 @@ func C01(run *core.Run) {
 				t.Pubkey = other.Pubkey
 				h := sha256.Sum256(tbl.canonical(t.Pubkey, t.CreatedAt, t.Kind, t.Tags, t.Content))
 				t.ID = hex.EncodeToString(h[:])
+			case "id-case":
+				t.ID = upperOneHexLetter(ev.ID, r.Intn(64))
+				if t.ID == ev.ID {
+					continue
+				}
+			case "sig-case":
+				t.Sig = upperOneHexLetter(ev.Sig, r.Intn(128))
+				if t.Sig == ev.Sig {
+					continue
+				}
 			}
 			run.Add("tampers_checked", 1)
 			ok, err := t.Verify()
+			if name == "id-case" || name == "sig-case" {
+				// Canon!Lexical: judged by the admission verdict Valid /\ Verify
+				ok = ok && t.Valid()
+			}
 			if (ok && err == nil) != authentic {
 				run.Violate("verify-accepts-tampered:"+name, fmt.Sprintf("event with tampered %s reported authentic=(%v,%v), Canon says %v: %+v", name, ok, err, authentic, t),
 					map[string]any{"original": ev, "tampered": t})
